@@ -26,7 +26,14 @@ func zzLabel(name string, alphabet string) string {
 }
 
 // zzSiteHost builds a site host: 1..2 one-byte labels over {a,b,*}, or one of the catch-all spellings.
-func zzSiteHost() string {
+func zzSiteHost(simple bool) string {
+	if simple && verifrt.Tier() == 0 {
+		// (the server-entry harness: host classes are the trie harness's subject)
+		if verifrt.Bool("catchall") {
+			return ""
+		}
+		return zzLabel("hl", "a*")
+	}
 	switch verifrt.Choose("hostkind", 5) {
 	case 0:
 		return zzLabel("hl", "ab*")
@@ -42,22 +49,33 @@ func zzSiteHost() string {
 }
 
 // zzSitePath returns the path as written in the site address and the path prefix it stands for.
-func zzSitePath() (written, norm string) {
-	switch verifrt.Choose("pathkind", 3) {
+func zzSitePath(trailing bool) (written, norm string) {
+	kinds := 3
+	if trailing || verifrt.Tier() > 0 {
+		kinds = 4
+	}
+	switch verifrt.Choose("pathkind", kinds) {
 	case 0:
 		return "", "/"
 	case 1:
 		return "/", "/"
+	case 3:
+		// a path written with a trailing slash claims what is inside it, not its siblings (/a/ vs /ab)
+		p := "/" + zzLabel("pl", "ab") + "/"
+		return p, p
 	}
 	p := "/" + zzLabel("pl", "ab/")
 	return p, p
 }
 
-func zzSites(n int) []zzSite {
+func zzSites(n int) []zzSite { return zzSitesWith(n, false) }
+
+// zzSitesWith: trailing adds site paths written with a trailing slash already in the quick tier.
+func zzSitesWith(n int, trailing bool) []zzSite {
 	sites := make([]zzSite, n)
 	for i := range sites {
-		h := zzSiteHost()
-		written, p := zzSitePath()
+		h := zzSiteHost(trailing)
+		written, p := zzSitePath(trailing)
 		// the site address as standardizeAddress leaves it: Original keeps the written text
 		sites[i] = zzSite{host: h, path: p, cfg: &SiteConfig{Addr: Address{Original: h + written, Host: h, Path: written}}}
 	}
